@@ -92,6 +92,13 @@ package xmpp
 // behaviour (the right-hand sides of [C06.matcher.*]), which is what accepts means for them.
 //@ spec accepts(m Iface, p Iface) Bool
 //@ spec nsOf(x Iface) Str
+//@ event TlsDone(s Ref)
+//@ event AuthConfirmed(s Ref)
+//@ event Restarted(s Ref)
+//@ event ResumedOK(s Ref)
+//@ event Bound(s Ref)
+//@ event SessionOpened(s Ref)
+//@ event SMEnabledOK(s Ref)
 //@ event HandlePacket(h Iface, s Iface, p Iface)
 //@ event Send(s Iface, p Iface)
 //@ event SendRaw(s Iface, stz Str)
@@ -360,6 +367,7 @@ package xmpp
 //
 //@ func (*xmpp.Session).auth(s, o)
 //@   requires s != nil && o != nil && s.transport != nil && o.parsedJid != nil
+//@   emit AuthConfirmed(s) when old(s.err) == nil && s.err == nil
 //@   ensures [C03.sticky.auth] old(s.err) != nil ==> s.err == old(s.err) && count(Write) == old(count(Write)) && count(PacketRead) == old(count(PacketRead))
 //@   ensures [C14.auth.once]   count(Write) <= old(count(Write)) + 1
 //@   ensures [C14.auth.user]   count(Write) == old(count(Write)) + 1 ==> exists(k, 0, len(o.Credential.mechanisms), firstCommon(o.Credential, s.Features, k) && last(Write, 1) == plainPayload(o.Credential.mechanisms[k], o.parsedJid.Node, o.Credential.secret))
@@ -475,6 +483,7 @@ package xmpp
 //
 //@ func (*xmpp.Session).reset(s)
 //@   requires s != nil && s.transport != nil
+//@   emit Restarted(s) when s.err == nil
 //@   ensures [C14.features.fresh] s.err == nil ==> freshList(s.Features.Mechanisms.Mechanism)
 //@   ensures [C03.restart] count(StreamStarted) == old(count(StreamStarted)) + 1 && last(StreamStarted, 0) == s.transport
 //@   ensures [C03.restart.ok] s.err == nil ==> last(StreamStarted, 1) && count(Decoded) == old(count(Decoded)) + 1 && last(Decoded, 1) && atlast(StreamStarted) < atlast(Decoded)
@@ -492,6 +501,7 @@ package xmpp
 //
 //@ func (*xmpp.Session).resume(s, o) (ok)
 //@   requires s != nil && s.transport != nil
+//@   emit ResumedOK(s) when ok
 //@   ensures [C11.resume.never]   (!old(stanza.smOffered(s.Features)) || old(s.SMState.Id) == "") ==> !ok && count(Write) == old(count(Write)) && count(PacketRead) == old(count(PacketRead)) && smStateKept(s) && s.err == old(s.err)
 //@   ensures [C11.resume.once]    count(Write) <= old(count(Write)) + 1 && count(PacketRead) <= old(count(PacketRead)) + 1
 //@   ensures [C11.resume.ok]      ok ==> count(Write) == old(count(Write)) + 1 && newReadIs(stanza.SMResumed) && last(PacketRead).(stanza.SMResumed).PrevId == old(s.SMState.Id) && atlast(Write) < atlast(PacketRead) && smStateKept(s) && s.err == nil
@@ -508,6 +518,7 @@ package xmpp
 //
 //@ func (*xmpp.Session).EnableStreamManagement(s, o)
 //@   requires s != nil && o != nil && s.transport != nil
+//@   emit SMEnabledOK(s) when old(s.err) == nil && s.err == nil && old(stanza.smOffered(s.Features)) && old(o.StreamManagementEnable)
 //@   ensures [C03.sticky.enable] old(s.err) != nil ==> s.err == old(s.err) && count(Write) == old(count(Write)) && count(PacketRead) == old(count(PacketRead)) && smStateKept(s)
 //@   ensures [C11.enable.skip]   (old(s.err) == nil && (!old(stanza.smOffered(s.Features)) || !old(o.StreamManagementEnable))) ==> s.err == nil && count(Write) == old(count(Write)) && count(PacketRead) == old(count(PacketRead)) && smStateKept(s)
 //@   ensures [C11.enable.once]   count(Write) <= old(count(Write)) + 1 && count(PacketRead) <= old(count(PacketRead)) + 1
@@ -612,13 +623,6 @@ package xmpp
 //@ event DecodedElement(v Iface, ok Bool)
 //@ event StartTLSCalled(t Iface, ok Bool)
 //@ event SecureAsked(t Iface, b Bool)
-//@ event TlsDone(s Ref)
-//@ event AuthConfirmed(s Ref)
-//@ event Restarted(s Ref)
-//@ event ResumedOK(s Ref)
-//@ event Bound(s Ref)
-//@ event SessionOpened(s Ref)
-//@ event SMEnabledOK(s Ref)
 //@ func (xmpp.Transport).DoesStartTLS(t) (b)
 //@ func (xmpp.Transport).StartTLS(t) (err)
 //@   emit StartTLSCalled(t, err == nil)
@@ -663,3 +667,57 @@ package xmpp
 //@   ensures s.transport == old(s.transport) && s.Features == old(s.Features) && smStateKept(s) && s.BindJid == old(s.BindJid)
 //@   assigns s.err, s.lastPacketId
 //@   emits Write, Decoded, Marshaled
+
+//@ pred sessOK(s, t) := s != nil && s.transport == t
+//@ func xmpp.NewSession(c, state) (res, err)
+//@   requires c != nil && c.transport != nil && c.config != nil && c.config.parsedJid != nil && (c.Session != nil ==> c.Session.transport == c.transport)
+//@   ensures [C03.success.auth]    err == nil ==> res != nil && res.err == nil && count(AuthConfirmed) == old(count(AuthConfirmed)) + 1 && count(Restarted) > old(count(Restarted)) && atlast(AuthConfirmed) < atlast(Restarted)
+//@   ensures [C03.success.tls,C04.success.tls] err == nil ==> (c.config.Insecure || last(SecureAsked, 1))
+//@   ensures [C03.success.session] (err == nil && count(ResumedOK) == old(count(ResumedOK))) ==> count(Bound) == old(count(Bound)) + 1 && atlast(Restarted) < atlast(Bound) && (!stanza.sessionOptional(res.Features) ==> count(SessionOpened) == old(count(SessionOpened)) + 1 && atlast(Bound) < atlast(SessionOpened)) && ((stanza.smOffered(res.Features) && old(c.config.StreamManagementEnable)) ==> count(SMEnabledOK) == old(count(SMEnabledOK)) + 1 && atlast(Bound) < atlast(SMEnabledOK))
+//@   ensures [C11.resumed.nobind,C03.success.resumed] (err == nil && count(ResumedOK) > old(count(ResumedOK))) ==> count(ResumedOK) == old(count(ResumedOK)) + 1 && count(Bound) == old(count(Bound)) && count(SessionOpened) == old(count(SessionOpened)) && count(SMEnabledOK) == old(count(SMEnabledOK)) && atlast(Restarted) < atlast(ResumedOK) && old(c.Session) != nil && res == old(c.Session) && res.BindJid == old(c.Session.BindJid)
+//@   ensures [C03.failure] err != nil ==> typeof(err) == ConnError || res != nil
+//@   ensures res != nil ==> res.transport == c.transport && (old(c.Session) != nil ==> res == old(c.Session)) && (old(c.Session) == nil ==> fresh(res))
+//@   assigns c.Session.err, c.Session.Features, c.Session.TlsEnabled, c.Session.StreamId, c.Session.SMState, c.Session.BindJid, c.Session.lastPacketId, c.config.StreamManagementEnable
+//@   emits Write, Decoded, DecodedElement, StartTLSCalled, SecureAsked, PacketRead, StanzaRead, AckReqRead, StreamErrRead, TokenRead, Marshaled, StreamStarted, TlsDone, AuthConfirmed, Restarted, ResumedOK, Bound, SessionOpened, SMEnabledOK
+//@   at call auth assert [C04.gate] $s.err != nil || count(SecureAsked) > old(count(SecureAsked)) && last(SecureAsked, 0) == c.transport && (last(SecureAsked, 1) || c.config.Insecure)
+//@   at call auth assert [C03.order.tls,C04.order.tls] ($s.err == nil && count(TlsDone) > old(count(TlsDone))) ==> (count(Restarted) > old(count(Restarted)) && atlast(TlsDone) < atlast(Restarted))
+//@   at call bind assert [C03.order.bind] count(AuthConfirmed) == old(count(AuthConfirmed)) + 1 && count(Restarted) > old(count(Restarted)) && atlast(AuthConfirmed) < atlast(Restarted) && count(ResumedOK) == old(count(ResumedOK))
+
+// ---------------------------------------------------------------------------
+// C03 / C04 / C13: connect, Connect, Resume
+//
+//@ event Spawn_recv(c Ref, q Ref)
+//@ event Spawn_keepalive(t Iface, d Int, q Ref)
+//@ event PostConnectHook()
+//@ event PostResumeHook()
+//@ func field:xmpp.Client.PostConnectHook() (err)
+//@   emit PostConnectHook
+//@ func field:xmpp.Client.PostResumeHook() (err)
+//@   emit PostResumeHook
+//
+//@ pred connectOK(c) := c != nil && c.transport != nil && c.config != nil && c.config.parsedJid != nil && (c.Session != nil ==> c.Session.transport == c.transport)
+//
+//@ func (*xmpp.Client).connect(c) (err)
+//@   requires connectOK(c)
+//@   ensures [C03.connect.ok]   err == nil ==> c.CurrentState.state == StateSessionEstablished && c.Session != nil && c.Session.err == nil && count(AuthConfirmed) == old(count(AuthConfirmed)) + 1 && (c.config.Insecure || last(SecureAsked, 1)) && (old(c.Handler) != nil ==> count(EventHandler) == old(count(EventHandler)) + 1 && last(EventHandler).State.state == StateSessionEstablished)
+//@   ensures [C03.connect.fail] err != nil ==> c.CurrentState.state == old(c.CurrentState.state) && count(EventHandler) == old(count(EventHandler))
+//@   ensures c.transport == old(c.transport) && c.config == old(c.config) && c.Handler == old(c.Handler) && c.router == old(c.router) && c.ErrorHandler == old(c.ErrorHandler) && connectOK(c)
+//@   assigns c.Session, c.Session.err, c.Session.Features, c.Session.TlsEnabled, c.Session.StreamId, c.Session.SMState, c.Session.BindJid, c.Session.lastPacketId, c.config.StreamManagementEnable, c.CurrentState.state
+//@   emits Write, Decoded, DecodedElement, StartTLSCalled, SecureAsked, PacketRead, StanzaRead, AckReqRead, StreamErrRead, TokenRead, Marshaled, StreamStarted, TlsDone, AuthConfirmed, Restarted, ResumedOK, Bound, SessionOpened, SMEnabledOK, Connected, EventHandler, Spawn, Spawn_connect$1
+//
+//@ func (*xmpp.Client).Connect(c) (err)
+//@   requires connectOK(c)
+//@   ensures [C03.Connect.fail,C04.Connect.fail] c.CurrentState.state != StateSessionEstablished && old(c.CurrentState.state) != StateSessionEstablished ==> err != nil && count(Spawn_recv) == old(count(Spawn_recv)) && count(Spawn_keepalive) == old(count(Spawn_keepalive))
+//@   ensures [C13.Connect.loops] err == nil ==> count(Spawn_recv) == old(count(Spawn_recv)) + 1 && last(Spawn_recv, 0) == c && count(Spawn_keepalive) == old(count(Spawn_keepalive)) + 1 && last(Spawn_keepalive, 0) == c.transport && last(Spawn_keepalive, 1) == c.config.KeepaliveInterval && last(Spawn_keepalive, 2) == last(Spawn_recv, 1)
+//@   ensures [C13.Connect.hook]  (err == nil && old(c.PostConnectHook) != nil) ==> count(PostConnectHook) == old(count(PostConnectHook)) + 1
+//@   assigns *
+//@   emits Write, Decoded, DecodedElement, StartTLSCalled, SecureAsked, PacketRead, StanzaRead, AckReqRead, StreamErrRead, TokenRead, Marshaled, StreamStarted, TlsDone, AuthConfirmed, Restarted, ResumedOK, Bound, SessionOpened, SMEnabledOK, Connected, EventHandler, Spawn, Spawn_connect$1, Spawn_recv, Spawn_keepalive, PostConnectHook
+//@   at call Write assert [C04.presence] c.CurrentState.state == StateSessionEstablished && count(AuthConfirmed) == old(count(AuthConfirmed)) + 1 && (c.config.Insecure || last(SecureAsked, 1))
+//
+//@ func (*xmpp.Client).Resume(c) (err)
+//@   requires connectOK(c)
+//@   ensures [C13.Resume.loops] err == nil ==> count(Spawn_recv) == old(count(Spawn_recv)) + 1 && last(Spawn_recv, 0) == c && count(Spawn_keepalive) == old(count(Spawn_keepalive)) + 1 && last(Spawn_keepalive, 0) == c.transport && last(Spawn_keepalive, 2) == last(Spawn_recv, 1)
+//@   ensures [C13.Resume.hook]  (err == nil && old(c.PostResumeHook) != nil) ==> count(PostResumeHook) == old(count(PostResumeHook)) + 1
+//@   ensures [C13.Resume.fail]  c.CurrentState.state != StateSessionEstablished ==> err != nil
+//@   assigns *
+//@   emits Write, Decoded, DecodedElement, StartTLSCalled, SecureAsked, PacketRead, StanzaRead, AckReqRead, StreamErrRead, TokenRead, Marshaled, StreamStarted, TlsDone, AuthConfirmed, Restarted, ResumedOK, Bound, SessionOpened, SMEnabledOK, Connected, EventHandler, Spawn, Spawn_connect$1, Spawn_recv, Spawn_keepalive, PostResumeHook
